@@ -6,6 +6,7 @@ import (
 	"fmt"
 	"math/big"
 	"math/bits"
+	"runtime"
 	"strings"
 	"sync/atomic"
 	"testing"
@@ -289,6 +290,8 @@ func c25Weight(w [2]uint64) *big.Int {
 type c25Run struct {
 	c      *verifmc.Check
 	branch [4]atomic.Int64 // upper clamp, above average, lower clamp, identity
+	sampled atomic.Int64
+	bases   []common.Integer // kernel bases for the direct distribution calls
 }
 
 type c25Case struct {
@@ -351,8 +354,10 @@ func (r *c25Run) classify(ws []*big.Int, thr int) {
 	}
 }
 
-// eval runs one work vector on every batch node of the context.
-func (r *c25Run) eval(x *c25Ctx, mode int, vals []uint64, direct bool) {
+// eval runs one work vector: the full transaction construction on every batch
+// node of the context (all=true) or on the first one only, and the
+// distribution function itself with every kernel base.
+func (r *c25Run) eval(x *c25Ctx, mode int, vals []uint64, all bool) {
 	c := r.c
 	n := len(vals)
 	works := make([][2]uint64, n)
@@ -368,13 +373,19 @@ func (r *c25Run) eval(x *c25Ctx, mode int, vals []uint64, direct bool) {
 	if c.Distinct(fmt.Sprintf("vec|%d|%d|%v", n, mode, vals)) {
 		r.classify(ws, x.b[0].thr)
 	}
-	for _, b := range x.b {
+	cs := c25Case{N: n, Mode: c25Modes[mode], Values: append([]uint64{}, vals...), Ready: [2]int{n, n}}
+	for i, b := range x.b {
+		if i > 0 && !all {
+			break
+		}
 		b.st.prev = works
-		cs := c25Case{N: n, Mode: c25Modes[mode], Values: append([]uint64{}, vals...), Batch: b.batch, Ready: [2]int{n, n}}
+		cs.Batch = b.batch
 		r.build(b, cs, ws, valid, n, n)
 	}
-	if direct {
-		r.direct(x.b[0], c25Case{N: n, Mode: c25Modes[mode], Values: append([]uint64{}, vals...), Batch: x.b[0].batch, Ready: [2]int{n, n}}, ws, valid)
+	x.b[0].st.prev = works
+	cs.Batch = x.b[0].batch
+	for _, base := range r.bases {
+		r.direct(x.b[0], cs, base, ws, valid)
 	}
 }
 
@@ -391,13 +402,13 @@ func (r *c25Run) build(b *c25Batch, cs c25Case, ws []*big.Int, valid, readyW, re
 		return what
 	}
 	var tx *common.VersionedTransaction
-	p, site := verifmc.CatchSite(func() { tx = node.buildUniversalMintTransaction(b.cust, b.ts, false) })
+	p, site := c25CatchSite(func() { tx = node.buildUniversalMintTransaction(b.cust, b.ts, false) })
 	c.Eval(1)
 	pre := valid >= b.thr && readyW >= b.thr && readyS >= b.thr && readyW == readyS
 	if p != nil {
 		if pre {
 			c.Outcome("panic")
-			c.Violation(key("dist:panic:"+site), fmt.Sprintf("buildUniversalMintTransaction panics (%v at %s) with valid=%d >= threshold=%d, n=%d, batch %d amount %s units", p, site, valid, b.thr, n, b.batch, b.amount), cs)
+			c.Violation(key("dist:panic:"+c25Frame(site)), fmt.Sprintf("buildUniversalMintTransaction panics (%v at %s) with valid=%d >= threshold=%d, n=%d, batch %d amount %s units", p, site, valid, b.thr, n, b.batch, b.amount), cs)
 		} else {
 			c.Outcome("panic:precondition-false")
 			c.Add("obs_panic_while_precondition_false", 1)
@@ -456,34 +467,39 @@ func (r *c25Run) build(b *c25Batch, cs c25Case, ws []*big.Int, valid, readyW, re
 	if i, j, ok := c25Monotone(ws, outs[:n]); !ok {
 		c.Violation(key("dist:monotone"), fmt.Sprintf("node %d has work %s >= node %d work %s but receives %s < %s (n=%d batch %d)", i, ws[i], j, ws[j], outs[i], outs[j], n, b.batch), cs)
 	}
-	if valid == n {
+	if valid == n && pre && r.sampled.Add(1) <= 6 {
 		c.Sample(map[string]any{"case": cs, "amount_units": b.amount.String(), "outputs_units": fmt.Sprint(outs)})
 	}
 	return tx
 }
 
-var c25DirectBase = common.NewInteger(10000)
-
-// direct calls distributeKernelMintByWorks itself with the repository test's base.
-func (r *c25Run) direct(b *c25Batch, cs c25Case, ws []*big.Int, valid int) {
+// direct calls distributeKernelMintByWorks itself with one kernel base.
+func (r *c25Run) direct(b *c25Batch, cs c25Case, base common.Integer, ws []*big.Int, valid int) {
 	c := r.c
 	n := len(ws)
-	cs.Base = c25DirectBase.String()
+	cs.Base = base.String()
+	bu := c25Units(base)
+	key := func(what string) string {
+		if bu.Cmp(big.NewInt(c25TinyUnits)) < 0 {
+			return what + ":amt=tiny"
+		}
+		return what
+	}
 	var mints []*CNodeWork
 	var err error
-	p, site := verifmc.CatchSite(func() { mints, err = b.m.Node.distributeKernelMintByWorks(b.acc, c25DirectBase, b.ts) })
+	p, site := c25CatchSite(func() { mints, err = b.m.Node.distributeKernelMintByWorks(b.acc, base, b.ts) })
 	c.Eval(1)
 	if p != nil {
 		if valid >= b.thr {
 			c.Outcome("direct:panic")
-			c.Violation("distribute:panic:"+site, fmt.Sprintf("distributeKernelMintByWorks panics (%v at %s) with valid=%d >= threshold=%d n=%d", p, site, valid, b.thr, n), cs)
+			c.Violation(key("distribute:panic:"+c25Frame(site)), fmt.Sprintf("distributeKernelMintByWorks panics (%v at %s) with valid=%d >= threshold=%d n=%d base %s", p, site, valid, b.thr, n, cs.Base), cs)
 		}
 		return
 	}
 	if err != nil {
 		if valid >= b.thr {
 			c.Outcome("direct:error-unexpected")
-			c.Stricter("distributeKernelMintByWorks refuses although valid >= threshold: " + strings.SplitN(err.Error(), " ", 4)[2])
+			c.Stricter("distributeKernelMintByWorks refuses although valid >= threshold")
 		} else {
 			c.Outcome("direct:error:valid<threshold")
 		}
@@ -491,7 +507,7 @@ func (r *c25Run) direct(b *c25Batch, cs c25Case, ws []*big.Int, valid int) {
 	}
 	c.Outcome("direct:ok")
 	if len(mints) != n {
-		c.Violation("distribute:shape", fmt.Sprintf("%d shares for %d nodes", len(mints), n), cs)
+		c.Violation(key("distribute:shape"), fmt.Sprintf("%d shares for %d nodes", len(mints), n), cs)
 		return
 	}
 	outs := make([]*big.Int, n)
@@ -503,15 +519,61 @@ func (r *c25Run) direct(b *c25Batch, cs c25Case, ws []*big.Int, valid int) {
 		outs[i] = c25Units(m.Work)
 		sum.Add(sum, outs[i])
 		if outs[i].Sign() <= 0 {
-			c.Violation("distribute:nonpositive-share", fmt.Sprintf("share %d is %s units of base %s", i, outs[i], cs.Base), cs)
+			c.Violation(key("distribute:nonpositive-share"), fmt.Sprintf("share %d of n=%d is %s units of kernel base %s", i, n, outs[i], cs.Base), cs)
 		}
 	}
-	if sum.Cmp(c25Units(c25DirectBase)) > 0 {
-		c.Violation("distribute:sum-exceeds-base", fmt.Sprintf("shares sum to %s units, base (the kernel half) is %s", sum, c25Units(c25DirectBase)), cs)
+	if sum.Cmp(bu) > 0 {
+		c.Violation(key("distribute:sum-exceeds-base"), fmt.Sprintf("shares sum to %s units, base (the kernel half) is %s", sum, bu), cs)
 	}
 	if i, j, ok := c25Monotone(ws, outs); !ok {
-		c.Violation("distribute:monotone", fmt.Sprintf("node %d work %s >= node %d work %s but share %s < %s", i, ws[i], j, ws[j], outs[i], outs[j]), cs)
+		c.Violation(key("distribute:monotone"), fmt.Sprintf("node %d work %s >= node %d work %s but share %s < %s (base %s)", i, ws[i], j, ws[j], outs[i], outs[j], cs.Base), cs)
 	}
+}
+
+// c25CatchSite runs f; on panic it returns the value and the function that
+// panicked (first frame below runtime.panic), independent of where the
+// repository tree lives on disk.
+func c25CatchSite(f func()) (p any, site string) {
+	defer func() {
+		if r := recover(); r != nil {
+			p = r
+			buf := make([]byte, 16384)
+			lines := strings.Split(string(buf[:runtime.Stack(buf, false)]), "\n")
+			seen := false
+			for _, l := range lines {
+				if strings.HasPrefix(l, "\t") || l == "" {
+					continue
+				}
+				if strings.HasPrefix(l, "panic(") {
+					seen = true
+					continue
+				}
+				if seen {
+					if strings.HasPrefix(l, "runtime.") {
+						continue
+					}
+					if j := strings.LastIndex(l, "("); j > 0 {
+						l = l[:j]
+					}
+					if j := strings.LastIndex(l, "/"); j >= 0 {
+						l = l[j+1:]
+					}
+					site = l
+					break
+				}
+			}
+		}
+	}()
+	f()
+	return nil, ""
+}
+
+// c25Frame shortens "common.Integer.Add" to "Integer.Add".
+func c25Frame(site string) string {
+	if i := strings.Index(site, "."); i >= 0 && !strings.Contains(site, "(") {
+		return site[i+1:]
+	}
+	return site
 }
 
 // c25Canon completes a used-value mask to the first size-k sub-menu containing it.
@@ -524,7 +586,7 @@ func c25Canon(used uint, k, menu int) uint {
 
 // ---------------------------------------------------------------- schedule
 
-func c25Schedule(c *verifmc.Check) {
+func c25Schedule(c *verifmc.Check) int {
 	const years = 300
 	horizon := MintYearDays * years
 	vals := make([]*big.Int, horizon+1)
@@ -535,7 +597,7 @@ func c25Schedule(c *verifmc.Check) {
 				continue
 			}
 			var v common.Integer
-			p, site := verifmc.CatchSite(func() { v = mintBatchSize(uint64(b)) })
+			p, site := c25CatchSite(func() { v = mintBatchSize(uint64(b)) })
 			c.Eval(1)
 			if p != nil {
 				sites[b] = fmt.Sprintf("%v at %s", p, site)
@@ -669,7 +731,7 @@ func c25Schedule(c *verifmc.Check) {
 					continue
 				}
 				var got common.Integer
-				p, site := verifmc.CatchSite(func() { got = mintMultiBatchesSize(uint64(o), uint64(b)) })
+				p, site := c25CatchSite(func() { got = mintMultiBatchesSize(uint64(o), uint64(b)) })
 				c.Eval(1)
 				want := new(big.Int).Sub(prefix[b], prefix[o])
 				rep := map[string]any{"old": o, "batch": b}
@@ -698,6 +760,7 @@ func c25Schedule(c *verifmc.Check) {
 		}
 	})
 	c.Require(c.OutcomeCount("multi:across-year") > 1000 && c.OutcomeCount("multi:within-year") > 1000, "multi-batch windows vacuous")
+	return lastPositive
 }
 
 // ---------------------------------------------------------------- tie to the real store
@@ -788,20 +851,26 @@ func (r *c25Run) tie(n int) {
 func TestMC_C25(t *testing.T) {
 	c := verifmc.Start(t, "C25", "exploration")
 	defer c.Finish()
-	c.SetRule("schedule: every batch 1..109500 (plus first/last batch of every year up to 10000 in thorough) and every (old,batch) pair with batch-old<=40 inside a window of +-W batches around batch 0, the legacy ending 1706 and every year boundary of the positive schedule incl. the boundary into the zero tail; distribution: for n=7 every assignment of a per-node value over every 3-value sub-menu of the value menu (each vector evaluated once: under the first sub-menu containing its used values), for n>7 every assignment that is constant (any menu value) except on nodes {0,n/2,n-1} which take every menu value; each vector under every (lead,sign) mapping mode and every batch amount; a case is distinct by (n, mode, vector)")
-	c.Assume("the store wrapper answers ListNodeWorks (mint day and the day before), ListAggregatedRoundSpaceCheckpoints and ReadNodeRoundSpacesForBatch from the enumerated vector; every other store call reaches the real Badger store (tied to the real WriteRoundWork path once per n)",
+	c.SetRule("schedule: every batch 1..109500 (thorough: plus first/last batch of every year up to 10001) and every (old,batch) pair with batch-old<=40 inside a window of +-W batches (W=20 quick, 40 thorough) around batch 0+W, the legacy ending 1706 and every year boundary of the positive schedule incl. the boundary into the zero tail. " +
+		"distribution: n=7: every assignment of one menu value per node using at most 3 distinct values of the 8-value menu (= all 3^7 assignments of every one of the C(8,3) sub-menus, each vector evaluated once); n in {8,9,10,25,50}: every vector that is constant (each menu value) except on nodes {0,n/2,n-1}, which take every value of the deviant menu. " +
+		"Each vector runs under each (lead,sign) mapping mode (lead=(v,0) sign=(0,v) both=(v,v) alt=even nodes lead, odd nodes sign; quick: alt only) through distributeKernelMintByWorks with 4 kernel bases and through buildUniversalMintTransaction at the batch amounts of 1707, 2000 and 60000 (quick: n=7 vectors with exactly 3 distinct values are built at 1707 only). A case is distinct by (n, mode, vector), (old,batch) or batch")
+	c.Assume("the store wrapper answers ListNodeWorks (mint day and the day before), ListAggregatedRoundSpaceCheckpoints and ReadNodeRoundSpacesForBatch from the enumerated vector; every other store call reaches the real Badger store (the wrapper is tied to the real WriteRoundWork / WriteRoundSpaceAndState path once per n)",
 		"memberships n>7 are installed into the node's state lists (as kernel/removal_consensus_test.go does), not built by pledge/accept transactions",
-		"a node's work is 1.2*lead+sign (the documented weighting); the batch amount is mintBatchSize(batch) because the last finalized mint is batch-1 in the real store")
+		"a node's work is 1.2*lead+sign (the documented weighting); the batch amount is mintBatchSize(batch) because the last finalized mint in the real store is batch-1",
+		"aggregator readiness (enough lead work today, matching space checkpoints) and valid >= threshold are the code's own precondition for minting; refusals outside it are outcomes, not violations")
 
-	c25Schedule(c)
+	lastPositive := c25Schedule(c)
 
 	r := &c25Run{c: c}
-	menu := verifmc.Pick(c, []uint64{0, 1, 2, 10, 70, 71, 1000000, 1 << 40}, []uint64{0, 1, 2, 10, 70, 71, 1000000, 1 << 40})
-	modes := verifmc.Pick(c, []int{3, 2}, []int{0, 1, 2, 3})
+	menu := []uint64{0, 1, 2, 10, 70, 71, 1000000, 1 << 40}
+	deviants := verifmc.Pick(c, []uint64{0, 1, 70, 1 << 40}, menu)
+	modes := verifmc.Pick(c, []int{3}, []int{0, 1, 2, 3})
 	batches := []uint64{KernelNetworkLegacyEnding + 1, 2000, 60000}
 	ns := []int{8, 9, 10, 25, 50}
 	c.Set("menu", menu)
+	c.Set("deviant_menu_n>7", deviants)
 	c.Set("batches", batches)
+	c.Set("memberships", append([]int{7}, ns...))
 	var modeNames []string
 	for _, m := range modes {
 		modeNames = append(modeNames, c25Modes[m])
@@ -820,6 +889,7 @@ func TestMC_C25(t *testing.T) {
 	})
 	for _, x := range ctxs {
 		if x == nil {
+			c.Require(false, "fixture missing")
 			return
 		}
 	}
@@ -829,10 +899,18 @@ func TestMC_C25(t *testing.T) {
 		}
 	}()
 	var amounts []string
-	for _, b := range ctxs[0].b {
-		amounts = append(amounts, b.amount.String())
+	r.bases = []common.Integer{common.NewInteger(10000)}
+	for _, bn := range batches {
+		a := mintBatchSize(bn)
+		amounts = append(amounts, c25Units(a).String())
+		r.bases = append(r.bases, a.Div(10).Mul(5))
 	}
 	c.Set("batch_amounts_units", amounts)
+	var bs []string
+	for _, b := range r.bases {
+		bs = append(bs, b.String())
+	}
+	c.Set("direct_kernel_bases", bs)
 	c.Require(ctxs[0].b[0].thr == 5 && len(ctxs[0].b[0].acc) == 7, "unexpected 7-node fixture: thr %d n %d", ctxs[0].b[0].thr, len(ctxs[0].b[0].acc))
 
 	// which store methods does the construction reach? (strict store: anything
@@ -849,45 +927,10 @@ func TestMC_C25(t *testing.T) {
 		c.Set("store_methods_reached", strict.calls)
 	}
 
-	// n = 7: every assignment over every 3-value sub-menu
-	type job struct {
-		mode int
-		mask uint
+	// one vector per n through the real WriteRoundWork path
+	for _, n := range append([]int{7}, ns...) {
+		r.tie(n)
 	}
-	var jobs []job
-	for _, m := range modes {
-		for mask := uint(0); mask < 1<<uint(len(menu)); mask++ {
-			if bits.OnesCount(mask) == 3 {
-				jobs = append(jobs, job{m, mask})
-			}
-		}
-	}
-	c.Set("n7_submenus", len(jobs)/len(modes))
-	c.ParallelN(len(jobs), "n=7 vectors", func(k, ji int) {
-		j := jobs[ji]
-		var sub []int
-		for i := range menu {
-			if j.mask&(1<<uint(i)) != 0 {
-				sub = append(sub, i)
-			}
-		}
-		vals := make([]uint64, 7)
-		verifmc.Product([]int{3, 3, 3, 3, 3, 3, 3}, func(d []int) bool {
-			var used uint
-			for _, di := range d {
-				used |= 1 << uint(sub[di])
-			}
-			if c25Canon(used, 3, len(menu)) != j.mask {
-				return true
-			}
-			for i, di := range d {
-				vals[i] = menu[sub[di]]
-			}
-			r.eval(ctxs[k], j.mode, vals, true)
-			c.Add("vectors_n7", 1)
-			return !c.Expired("n=7 vectors")
-		})
-	})
 
 	// readiness of the aggregators (the code's own precondition): first k nodes
 	// have lead work today, first j nodes have a space checkpoint at the batch
@@ -913,6 +956,46 @@ func TestMC_C25(t *testing.T) {
 		}
 	}
 
+	// where in the schedule does a share first become zero? (direct calls, one
+	// zero-work node, everybody else equal) — n=7 and n=50
+	{
+		b := ctxs[0].b[0]
+		for _, n := range []int{7, 50} {
+			b.install(n)
+			vals := make([]uint64, n)
+			ws := make([]*big.Int, n)
+			works := make([][2]uint64, n)
+			for i := range vals {
+				if i > 0 {
+					vals[i] = 1
+				}
+				works[i] = c25Pair(2, i, vals[i])
+				ws[i] = c25Weight(works[i])
+			}
+			b.st.prev = works
+			first := 0
+			for y := 100; y <= lastPositive/MintYearDays; y++ {
+				base := mintBatchSize(uint64(y * MintYearDays)).Div(10).Mul(5)
+				zero := false
+				var mints []*CNodeWork
+				p := verifmc.Catch(func() { mints, _ = b.m.Node.distributeKernelMintByWorks(b.acc, base, b.ts) })
+				for _, m := range mints {
+					if m.Work.Sign() <= 0 {
+						zero = true
+					}
+				}
+				if p != nil || zero {
+					first = y
+					c.Distinct(fmt.Sprintf("tail|%d|%d", n, y))
+					r.direct(b, c25Case{N: n, Mode: "both", Values: vals, Batch: uint64(y * MintYearDays), Ready: [2]int{n, n}}, base, ws, n-1)
+					break
+				}
+			}
+			c.Set(fmt.Sprintf("obs_first_year_with_zero_share_n%d", n), first)
+		}
+		b.install(7)
+	}
+
 	// n > 7: constant background except on three nodes
 	for _, n := range ns {
 		for _, x := range ctxs {
@@ -922,25 +1005,25 @@ func TestMC_C25(t *testing.T) {
 		}
 		b0 := ctxs[0].b[0]
 		c.Require(len(b0.acc) == n && b0.thr == n*2/3+1, "installed membership n=%d: accepted %d threshold %d", n, len(b0.acc), b0.thr)
-		type njob struct{ mode, bg int }
+		type njob struct{ mode, bg, d0 int }
 		var nj []njob
+		L := len(deviants)
 		for _, m := range modes {
 			for bg := range menu {
-				nj = append(nj, njob{m, bg})
+				for d0 := 0; d0 < L; d0++ {
+					nj = append(nj, njob{m, bg, d0})
+				}
 			}
 		}
 		pos := []int{0, n / 2, n - 1}
-		L := len(menu)
 		c.ParallelN(len(nj), fmt.Sprintf("n=%d vectors", n), func(k, ji int) {
 			j := nj[ji]
 			vals := make([]uint64, n)
-			verifmc.Product([]int{L, L, L}, func(d []int) bool {
+			verifmc.Product([]int{L, L}, func(d []int) bool {
 				for i := range vals {
 					vals[i] = menu[j.bg]
 				}
-				for q, p := range pos {
-					vals[p] = menu[d[q]]
-				}
+				vals[pos[0]], vals[pos[1]], vals[pos[2]] = deviants[j.d0], deviants[d[0]], deviants[d[1]]
 				r.eval(ctxs[k], j.mode, vals, true)
 				c.Add(fmt.Sprintf("vectors_n%d", n), 1)
 				return !c.Expired("n>7 vectors")
@@ -949,13 +1032,57 @@ func TestMC_C25(t *testing.T) {
 	}
 	for _, x := range ctxs {
 		for _, b := range x.b {
-			c.Require(b.st.other == 0, "store wrapper saw a ListNodeWorks day it does not model")
+			b.install(7)
 		}
 	}
 
-	// one vector per n through the real WriteRoundWork path
-	for _, n := range append([]int{7}, ns...) {
-		r.tie(n)
+	// n = 7: every assignment over every 3-value sub-menu
+	type job struct {
+		mode  int
+		mask  uint
+		first int
+	}
+	var jobs []job
+	for _, m := range modes {
+		for mask := uint(0); mask < 1<<uint(len(menu)); mask++ {
+			if bits.OnesCount(mask) == 3 {
+				for f := 0; f < 3; f++ {
+					jobs = append(jobs, job{m, mask, f})
+				}
+			}
+		}
+	}
+	c.Set("n7_submenus", len(jobs)/len(modes)/3)
+	c.ParallelN(len(jobs), "n=7 vectors", func(k, ji int) {
+		j := jobs[ji]
+		var sub []int
+		for i := range menu {
+			if j.mask&(1<<uint(i)) != 0 {
+				sub = append(sub, i)
+			}
+		}
+		vals := make([]uint64, 7)
+		verifmc.Product([]int{3, 3, 3, 3, 3, 3}, func(rest []int) bool {
+			d := append([]int{j.first}, rest...)
+			var used uint
+			for _, di := range d {
+				used |= 1 << uint(sub[di])
+			}
+			if c25Canon(used, 3, len(menu)) != j.mask {
+				return true
+			}
+			for i, di := range d {
+				vals[i] = menu[sub[di]]
+			}
+			r.eval(ctxs[k], j.mode, vals, c.Thorough() || bits.OnesCount(used) < 3)
+			c.Add(fmt.Sprintf("vectors_n7_%d_distinct_values", bits.OnesCount(used)), 1)
+			return !c.Expired("n=7 vectors")
+		})
+	})
+	for _, x := range ctxs {
+		for _, b := range x.b {
+			c.Require(b.st.other == 0, "store wrapper saw a ListNodeWorks day it does not model")
+		}
 	}
 
 	c.Require(c.OutcomeCount("mint:ok") > 1000 && c.OutcomeCount("nomint:valid<threshold") > 100 && c.OutcomeCount("nomint:aggregators-not-ready") > 10,
